@@ -228,6 +228,9 @@ def gen(rng, tier, shard, batch):
             _CON = constructed(random.Random(20260109))
         reqs += _CON[shard::E.NCPU]
     if batch == 0:
+        for c, n_ in G.wrapped_multiples()[shard::E.NCPU]:
+            reqs.append("ratio %s" % G.fD(c * rng.choice((1, -1)), n_))
+            reqs.append("hash %s" % G.fD(c, n_))
         # decision boundary of division-free divisibility tests (x * inverse(5^n) mod 2^w against floor((2^w - 1) / 5^n))
         for c, n_ in G.modinv_boundary_all(rng)[shard::E.NCPU]:
             for s in set((n_, 18, rng.randrange(0, 19))):
